@@ -19,6 +19,7 @@ func init() {
 			"D3 recycled block records are completely re-initialised: wherever a *block may come from the reuse buffer, every field of the struct is assigned unconditionally before use, and the tombstones stored with a block are read from the TSM reader of the iterator that produced the block; " +
 			"D4 outputs are installed only as complete files: Compactor.writeNewFiles returns file names only after write() returned nil and removes its temporary outputs otherwise (shared with C01). " +
 			"D5 the reservation of the input files (Compactor.add) is released on every exit of CompactFull/CompactFast once it was taken; D6 an abort is honoured between blocks: in Compactor.write every block read is preceded, since the iterator advanced, by a look at the enabled flags, and the function can return errCompactionAborted; D7 the only files compactGroup removes are elements of the slice returned by CompactFast/CompactFull (its own outputs). " +
+			"D8 blocks.Less for equal keys equals 'block i lies entirely before block j' on every ordering of the four block bounds (so the stable sort keeps overlapping blocks in file order and the newer value wins); a possibly-successful return of writeNewFiles hands back the accumulated list of files; every read of FileStore.files in a function that replaces the field happens under the store's write lock (atomic read-modify-write). " +
 			"NOT decided: value-level merge arithmetic (newest wins, Exclude ranges), block size/count limits, sortedness of output blocks.",
 		RuleText:    "obligation = (rule, function, site); path exploration with outcome facts; attribute-set comparison between the first-block test and the per-block loop; struct-field coverage of re-initialisation; definition provenance",
 		Assumptions: commonAssumptions,
@@ -159,35 +160,74 @@ func runC09(c *core.Ctx) {
 		st, _ := bt.Underlying().(*types.Struct)
 		c.Need(st != nil, "struct tsm1.block")
 		sites := 0
-		for _, name := range []string{tsm1 + ".(*tsmKeyIterator).Next", tsm1 + ".(*tsmBatchKeyIterator).Next"} {
-			f := c.Fn(name)
+		c.Fn(tsm1 + ".(*tsmKeyIterator).Next")
+		c.Fn(tsm1 + ".(*tsmBatchKeyIterator).Next")
+		for _, f := range c.P.FuncsIn(tsm1) {
+			if f.Body == nil || f.Decl == nil {
+				continue
+			}
 			info := f.Info()
 			k := 0
+			// variables handed back to the caller are the caller's obligation
+			returned := map[types.Object]bool{}
+			ast.Inspect(f.Body, func(nd ast.Node) bool {
+				if rs, ok := nd.(*ast.ReturnStmt); ok {
+					for _, r := range rs.Results {
+						if id, ok := ast.Unparen(r).(*ast.Ident); ok {
+							returned[info.ObjectOf(id)] = true
+						}
+					}
+				}
+				return true
+			})
 			ast.Inspect(f.Body, func(nd ast.Node) bool {
 				bs, ok := nd.(*ast.BlockStmt)
 				if !ok {
 					return true
 				}
 				for i, s := range bs.List {
-					ds, ok := s.(*ast.DeclStmt)
-					if !ok {
+					// a local *block: `var v *block`, or `v := helper(...)` where the helper returns a *block
+					var obj types.Object
+					var ds ast.Stmt = s
+					recycled := false
+					switch x := s.(type) {
+					case *ast.DeclStmt:
+						gd, ok := x.Decl.(*ast.GenDecl)
+						if !ok || gd.Tok != token.VAR || len(gd.Specs) != 1 {
+							continue
+						}
+						vs := gd.Specs[0].(*ast.ValueSpec)
+						if len(vs.Names) != 1 || len(vs.Values) != 0 {
+							continue
+						}
+						obj = info.Defs[vs.Names[0]]
+					case *ast.AssignStmt:
+						if x.Tok != token.DEFINE || len(x.Lhs) != 1 || len(x.Rhs) != 1 {
+							continue
+						}
+						id, ok := x.Lhs[0].(*ast.Ident)
+						if !ok {
+							continue
+						}
+						switch ast.Unparen(x.Rhs[0]).(type) {
+						case *ast.CallExpr, *ast.IndexExpr:
+							// a block handed out by a helper, or taken from a buffer: not known to be fresh
+							obj = info.Defs[id]
+							recycled = true
+						default:
+							continue
+						}
+					default:
 						continue
 					}
-					gd, ok := ds.Decl.(*ast.GenDecl)
-					if !ok || gd.Tok != token.VAR || len(gd.Specs) != 1 {
+					if obj == nil || returned[obj] {
 						continue
 					}
-					vs := gd.Specs[0].(*ast.ValueSpec)
-					if len(vs.Names) != 1 {
-						continue
-					}
-					obj := info.Defs[vs.Names[0]]
 					pt, ok := obj.Type().(*types.Pointer)
 					if !ok || !types.Identical(pt.Elem(), bt) {
 						continue
 					}
 					// does it come from the reuse buffer?
-					recycled := false
 					assigned := map[string]bool{}
 					var tombDef ast.Expr
 					for _, t := range bs.List[i+1:] {
@@ -221,7 +261,8 @@ func runC09(c *core.Ctx) {
 							}
 						}
 					}
-					if !recycled {
+					if !recycled || len(assigned) == 0 {
+						// fresh literal, or a mere alias of an existing block that is only read here
 						continue
 					}
 					k++
@@ -290,7 +331,42 @@ func runC09(c *core.Ctx) {
 		// every return of a non-nil file list happens with write() established ok, or with no write attempted on that path (empty input)
 		k := 0
 		bad := map[*core.Event]string{}
+		winfo4 := f.Info()
+		sentinelEstablished := func(st core.State) bool {
+			for k, fct := range st {
+				if k.Root != nil || !strings.HasPrefix(k.Path, "cond:") || fct.Def == nil || fct.Bool == 0 {
+					continue
+				}
+				var atoms []atomB
+				decompose(fct.Def, fct.Bool == 1, &atoms)
+				for _, a := range atoms {
+					be, ok := ast.Unparen(a.x).(*ast.BinaryExpr)
+					if !ok || !(be.Op == token.EQL && a.val || be.Op == token.NEQ && !a.val) {
+						continue
+					}
+					for _, side := range []ast.Expr{be.X, be.Y} {
+						var id *ast.Ident
+						switch s := ast.Unparen(side).(type) {
+						case *ast.Ident:
+							id = s
+						case *ast.SelectorExpr:
+							id = s.Sel
+						}
+						if id == nil {
+							continue
+						}
+						if v, ok := winfo4.ObjectOf(id).(*types.Var); ok && v.Pkg() != nil && v.Parent() == v.Pkg().Scope() && v.Type().String() == "error" {
+							return true
+						}
+					}
+				}
+			}
+			return false
+		}
 		complete := f.Flow().ExplorePaths(func(key core.VarKey, fct core.Fact) bool {
+			if key.Root == nil && strings.HasPrefix(key.Path, "cond:") {
+				return true
+			}
 			ce, ok := fct.Def.(*ast.CallExpr)
 			return ok && cw(ce)
 		}, func(e *core.Event, st core.State) {
@@ -304,7 +380,9 @@ func runC09(c *core.Ctx) {
 			if f.Info().Types[rs.Results[0]].IsNil() {
 				return
 			}
-			if core.OutcomeFailed(st, cw) {
+			// write() reports "this file is complete, open the next one" (size / block limits) and "nothing was
+			// written, the empty file was dropped" through sentinel errors; only another failure is a broken output
+			if core.OutcomeFailed(st, cw) && !sentinelEstablished(st) {
 				bad[e] = "file names are returned on a path where the last write() failed: a partially written output would be installed"
 			}
 		})
@@ -420,6 +498,166 @@ func runC09(c *core.Ctx) {
 			}
 		}
 		c.Check("abort-checked-every-block", f.Name+"/abort-return", f.PosStr(), aborts >= 1, "Compactor.write has no return of errCompactionAborted")
+	})
+
+	c.Clause("D8", func() {
+		// (a) the order of blocks of one key: a block sorts before another only if it lies entirely before it, so
+		// that overlapping blocks keep the (stable) order of their files and the newer file's values win
+		less := c.Fn(tsm1 + ".blocks.Less")
+		info := less.Info()
+		var sameKeyRet ast.Expr
+		ast.Inspect(less.Body, func(nd ast.Node) bool {
+			ifs, ok := nd.(*ast.IfStmt)
+			if !ok {
+				return true
+			}
+			be, ok := ast.Unparen(ifs.Cond).(*ast.BinaryExpr)
+			if !ok || be.Op != token.EQL || !isZeroLit(info, be.Y) {
+				return true
+			}
+			for _, s := range ifs.Body.List {
+				if rs, ok := s.(*ast.ReturnStmt); ok && len(rs.Results) == 1 {
+					sameKeyRet = rs.Results[0]
+				}
+			}
+			return true
+		})
+		c.Need(sameKeyRet != nil, "blocks.Less: result for equal keys")
+		pc := &core.PredCompiler{P: c.P, Sticky: true}
+		impl, err := pc.CompileIn(less, sameKeyRet)
+		c.Need(err == nil, fmt.Sprintf("blocks.Less: equal-key result is a comparison predicate (%v)", err))
+		// terms: a[i].minTime etc. are rendered from the receiver and the two index parameters
+		ai, aj := "$recv[$0]", "$recv[$1]"
+		assume := core.And(core.Le(ai+".minTime", ai+".maxTime"), core.Le(aj+".minTime", aj+".maxTime"))
+		spec := core.Lt(ai+".maxTime", aj+".minTime")
+		diff, nval, err := core.Equivalent(core.And(assume, impl), core.And(assume, spec))
+		c.Counts["evaluations"] += nval
+		detail := ""
+		if err != nil {
+			detail = "undecided: " + err.Error()
+		} else if diff != "" {
+			detail = "for blocks of the same key, Less differs from 'block i lies entirely before block j' on " + diff + ": overlapping blocks are then reordered by the stable sort, and the merge lets the older file's value win over the newer one"
+		}
+		c.Check("same-key-blocks-reordered-only-when-disjoint", less.Name, less.PosStr(), err == nil && diff == "", detail)
+
+		// (b) a successful return of writeNewFiles hands back every file written: its first result is the accumulator
+		w := c.Fn(tsm1 + ".(*Compactor).writeNewFiles")
+		winfo := w.Info()
+		var acc types.Object
+		ast.Inspect(w.Body, func(nd ast.Node) bool {
+			as, ok := nd.(*ast.AssignStmt)
+			if !ok || len(as.Lhs) != 1 || len(as.Rhs) != 1 {
+				return true
+			}
+			ce, ok := as.Rhs[0].(*ast.CallExpr)
+			if !ok {
+				return true
+			}
+			if b, ok := core.Callee(winfo, ce).(*types.Builtin); ok && b.Name() == "append" {
+				if id, ok := as.Lhs[0].(*ast.Ident); ok {
+					if t, ok := winfo.TypeOf(id).Underlying().(*types.Slice); ok && t.Elem().String() == "string" {
+						acc = winfo.ObjectOf(id)
+					}
+				}
+			}
+			return true
+		})
+		c.Need(acc != nil, "writeNewFiles: accumulator of written file names")
+		k := 0
+		for _, e := range w.Graph().Events {
+			if e.Kind != core.EvReturn || !w.Flow().Reachable(e) {
+				continue
+			}
+			rs, ok := e.Node.(*ast.ReturnStmt)
+			if !ok || len(rs.Results) != 2 {
+				continue
+			}
+			fact, _ := w.ReturnErrFact(e)
+			if fact.Nil == core.NonNil {
+				continue
+			}
+			k++
+			id, isId := ast.Unparen(rs.Results[0]).(*ast.Ident)
+			good := isId && winfo.ObjectOf(id) == acc
+			// returning the error of a failed step together with nil files is not a success return
+			if !good && fact.Nil != core.IsNil && winfo.Types[rs.Results[0]].IsNil() {
+				if rid, ok := ast.Unparen(rs.Results[1]).(*ast.Ident); ok && rid.Name != "nil" {
+					good = true
+				}
+			}
+			c.Check("success-returns-every-file-written", fmt.Sprintf("%s/return#%d", w.Name, k), c.P.Pos(e.Pos()), good,
+				"a return that may report success does not hand back the accumulated list of written files: the caller then replaces the input files by nothing (or by a subset) and every key of the group disappears")
+		}
+		c.Floor("possibly-successful returns of writeNewFiles", k, 1)
+
+		// (c) installing files is an atomic read-modify-write of FileStore.files: in a function that assigns the
+		// field, every read of it happens while the store's mutex is write-locked
+		fld := c.P.LookupField(tsm1, "FileStore", "files")
+		c.Need(fld != nil, "field FileStore.files")
+		nw := 0
+		for _, f := range c.P.FuncsIn(tsm1) {
+			if f.Body == nil || f.Decl == nil {
+				continue
+			}
+			_, writes := f.AccessesField(fld)
+			if !writes {
+				continue
+			}
+			finfo := f.Info()
+			readsAt := func(e *core.Event) bool {
+				if e.Node == nil {
+					return false
+				}
+				found := false
+				lhs := map[ast.Expr]bool{}
+				if as, ok := e.Node.(*ast.AssignStmt); ok {
+					for _, l := range as.Lhs {
+						lhs[ast.Unparen(l)] = true
+					}
+				}
+				ast.Inspect(e.Node, func(nd ast.Node) bool {
+					if _, ok := nd.(*ast.FuncLit); ok {
+						return false
+					}
+					if se, ok := nd.(*ast.SelectorExpr); ok && finfo.Uses[se.Sel] == fld && !lhs[se] {
+						found = true
+					}
+					return !found
+				})
+				return found
+			}
+			unlocked := map[*core.Event]bool{}
+			any := false
+			complete := f.ExploreLocks(func(e *core.Event, st core.LockState) {
+				if (e.Kind != core.EvAssign && e.Kind != core.EvCall && e.Kind != core.EvCond && e.Kind != core.EvCase && e.Kind != core.EvReturn) || !readsAt(e) {
+					return
+				}
+				any = true
+				w := false
+				for _, h := range st.Held() {
+					if strings.HasSuffix(h, ".mu#W") {
+						w = true
+					}
+				}
+				if !w {
+					unlocked[e] = true
+				}
+			})
+			if !complete {
+				c.Check("install-is-atomic-read-modify-write", f.Name+"/undecided", f.PosStr(), false, "undecided: exploration bound exceeded")
+				continue
+			}
+			if !any {
+				continue
+			}
+			nw++
+			bad := ""
+			for e := range unlocked {
+				bad = "FileStore.files is read at " + c.P.Pos(e.Pos()) + " without the store's write lock in a function that later replaces the field: an installation that completes in between (a snapshot during a compaction) is overwritten and its file drops out of the active set"
+			}
+			c.Check("install-is-atomic-read-modify-write", f.Name, f.PosStr(), bad == "", bad)
+		}
+		c.Floor("functions that read and replace FileStore.files", nw, 1)
 	})
 
 	c.Clause("D7", func() {
